@@ -141,7 +141,8 @@ def c18(tier):
 def c19(tier):
     return [w_h('VHarnessWalletMint', 'mint tokens: stored counter symbolic (< 2^30), quote amount 1..11, mint signs or refuses', must_reach=('minted', 'mint-failed')),
             w_h('VHarnessWalletMintThenSend', 'mint 8 then send 1..8 through a swap', must_reach=('sent',)),
-            w_h('VHarnessRestore', 'restore from the mnemonic: signed pattern over the first 4 batches of 100 outputs (2^4 patterns), both keysets scanned', must_reach=('restored',), timeout_s=1800)]
+            w_h('VHarnessRestoreDense', 'restore from the mnemonic: the first three 100-output batches each hold a signed output; both keysets scanned; blinded messages of distinct (secret, r) pairs assumed distinct', must_reach=('restored',), summaries=('h2c', 'dleq', 'padd-inj'), timeout_s=1800),
+            w_h('VHarnessRestore', 'restore from the mnemonic: signed pattern over the first 4 batches of 100 outputs (2^4 patterns), both keysets scanned; blinded messages of distinct (secret, r) pairs assumed distinct', must_reach=('restored',), summaries=('h2c', 'dleq', 'padd-inj'), timeout_s=1800)]
 def c08(tier):
     return [w_h('VHarnessWalletMint', 'mint tokens', must_reach=('minted',)),
             w_h('VHarnessWalletMintThenSend', 'mint (proofs stored with DLEQ e,s,r) then send through a swap', must_reach=('sent',)),
